@@ -616,6 +616,13 @@ func (a *Agent) gatherCandidatesLocalUDPMux(ctx context.Context) error { //nolin
 			}
 
 			c, err := NewCandidateHost(&hostConfig)
+			if err == nil && a.mDNSMode == MulticastDNSModeQueryAndGather {
+				// The address is the mDNS name: take the network type from the listen address,
+				// as the host gatherer does (an IPv6 mux address is not a udp4 candidate).
+				if ipAddr, validIP := netip.AddrFromSlice(candidateIP); validIP {
+					err = c.setIPAddr(ipAddr)
+				}
+			}
 			if err != nil {
 				closeConnAndLog(conn, a.log, "failed to create host mux candidate: %s %d: %v", candidateIP, udpAddr.Port, err)
 
